@@ -27,6 +27,10 @@ Options ==
     postaction |-> {"file"}, userinit |-> {"file"}, noyyalloc |-> {"file"}, noyyread |-> {"file"}, nofunction |-> {"file"},
     noinput |-> {"file"}, yyclass |-> {"cli", "file"}, tablesfile |-> {"cli", "file"}, lexcompat |-> {"cli", "file"},
     posixcompat |-> {"cli", "file"},
+    \* character-set size and table representation, and the documented defaults of their combinations
+    8bit |-> {"cli", "file"}, 7bit |-> {"cli", "file"}, default_8bit |-> {"cli"}, default_full_7bit |-> {"cli", "file"},
+    default_fast_7bit |-> {"cli", "file"}, default_fullecs_8bit |-> {"cli", "file"}, default_fastecs_8bit |-> {"cli", "file"},
+    full |-> {"cli", "file"}, fast |-> {"cli", "file"}, ecs |-> {"cli", "file"}, metaecs |-> {"cli", "file"}, noecs |-> {"cli", "file"},
     conflict_cxx_reentrant |-> {"pair"}, conflict_full_interactive |-> {"pair"}, conflict_full_reject |-> {"pair"},
     override_array_cxx |-> {"pair"} ]
 
